@@ -78,6 +78,46 @@ def walkTouched2 (env : Env) (t : Table) (h : Heap) : List (String × Val) → N
     | .fail _ | .escapes _ | .beyond => [(k, cur)]
     | .noHandler | .notAccess => []
 
+/-- what the access-logging objects record when one segment is applied -/
+def refLog (env : Env) (t : Table) (h : Heap) (op : String) (cur arg : Val) : List Nat :=
+  if op == "." then attrLog env.k h cur arg
+  else if op == "[" then itemLog env.k h cur
+  else if op == "P" then
+    match t.nearest env.k.ct (cur.clsName h) with
+    | some hn => env.handlerLog h hn cur arg
+    | none => []
+  else []
+
+/-- the access log of a walk: the objects touched, in order, nothing after the
+    segment that ends it -/
+def walkLog2 (env : Env) (t : Table) (h : Heap) : List (String × Val) → Val → List Nat
+  | [], _ => []
+  | (op, arg) :: rest, cur =>
+    refLog env t h op cur arg ++
+    (match refStep env t h op cur arg with
+     | .ok v => walkLog2 env t h rest v
+     | _ => [])
+
+/-- the key a failing lookup of one segment was made with (a sequence handler
+    looks up `int(segment)`) -/
+def stepKey (env : Env) (t : Table) (h : Heap) (op : String) (cur arg : Val) : Val :=
+  if op == "P" then
+    match t.nearest env.k.ct (cur.clsName h) with
+    | some .seqItem =>
+      (match pyInt2 env.k.rt h arg with
+       | .ok i => i
+       | _ => arg)
+    | _ => arg
+  else arg
+
+/-- the key of the segment that ends the walk -/
+def walkKey2 (env : Env) (t : Table) (h : Heap) : List (String × Val) → Val → Option Val
+  | [], _ => none
+  | (op, arg) :: rest, cur =>
+    match refStep env t h op cur arg with
+    | .ok v => walkKey2 env t h rest v
+    | _ => some (stepKey env t h op cur arg)
+
 /-- relational reading: `v` is reached from `u` by `steps` under the table `t` -/
 inductive Reaches2 (env : Env) (t : Table) (h : Heap) : Val → List (String × Val) → Val → Prop where
   | nil (u) : Reaches2 env t h u [] u
@@ -91,11 +131,21 @@ def WalkRes2.inDomain : WalkRes2 → Bool
 
 /-! ### histories -/
 
-def refHistory (env : Env) (h : Heap) : Table → List Event → List (WalkRes2 × List (Nat × Val))
+/-- what the reference says about one call -/
+structure RefCall where
+  w : WalkRes2
+  touched : List (Nat × Val)
+  log : List Nat
+  key : Option Val
+
+def refCall (env : Env) (t : Table) (h : Heap) (steps : List (String × Val)) (tgt : Val) : RefCall :=
+  { w := walk2 env t h steps 0 tgt, touched := walkTouched2 env t h steps 0 tgt,
+    log := walkLog2 env t h steps tgt, key := walkKey2 env t h steps tgt }
+
+def refHistory (env : Env) (h : Heap) : Table → List Event → List RefCall
   | _, [] => []
   | t, .register c hn ex :: es => refHistory env h (t.register c hn ex) es
-  | t, .glom steps tgt :: es =>
-    (walk2 env t h steps 0 tgt, walkTouched2 env t h steps 0 tgt) :: refHistory env h t es
+  | t, .glom steps tgt :: es => refCall env t h steps tgt :: refHistory env h t es
 
 /-! ### observation and checker -/
 
@@ -103,45 +153,70 @@ def paeFlags2 (env : Env) : Bool × Bool × Bool × Bool :=
   let m := env.excTable.mro "PathAccessError"
   (m.contains "GlomError", m.contains "KeyError", m.contains "IndexError", m.contains "AttributeError")
 
-def observe2 (env : Env) (o : Out2) : Obs :=
+/-- the observation both the model and the implementation are reduced to -/
+inductive Obs2 where
+  /-- the value returned; `toks`: the class-attribute identities the returned object has -/
+  | ok (v : Val) (toks : List String)
+  /-- `excOk`: `e.exc` is an exception that was raised (and, where the harness raised it, that very
+      object); `pathOk`: `e.path` is the path of the spec; `arg`: `e.exc.args` when one scalar -/
+  | pae (idx : Nat) (excCls : String) (isGlomError isKeyError isIndexError isAttributeError : Bool)
+      (excOk pathOk : Bool) (arg : Option Val)
+  | other (cls : String)
+  deriving DecidableEq, Repr
+
+/-- the identity token a reached class attribute carries, if it does -/
+def tokenOf : Val → Option String
+  | .sent s => if s == "opaque" then none else some s
+  | _ => none
+
+def observe2 (env : Env) (o : Out2) : Obs2 :=
   match o.res with
-  | .ok v => .ok v
+  | .ok v => .ok v (match tokenOf v with | some s => [s] | none => [])
   | .error (.pae k e) =>
     let f := paeFlags2 env
-    .pae k e.cls f.1 f.2.1 f.2.2.1 f.2.2.2
+    .pae k e.cls f.1 f.2.1 f.2.2.1 f.2.2.2 true true none
   | .error (.raised e) => .other e.cls
   | .error .unregistered => .other "UnregisteredTarget"
   | .error .badSpec => .other "BadSpec"
   | .error .beyond => .other "<beyond>"
 
-/-- a reached value against an observed one: the same value (the same address); the
-    value of a class attribute is not modelled — it is reached, and may be anything
-    (even an object of the heap: `Pt.__slots__` is the one empty tuple) -/
-def valMatch (m i : Val) : Bool :=
-  m == i || m == opaqueVal
+/-- a reached value against an observed one: the same value (the same address); a
+    class attribute by its identity token (the bound method of *this* receiver, the
+    very object of the owner's `__dict__`); only the value of a C-level computed
+    attribute (`__dict__`, `int.real`, …) is not compared -/
+def valMatch (m i : Val) (toks : List String) : Bool :=
+  match tokenOf m with
+  | some s => toks.contains s
+  | none => m == i || m == opaqueVal
 
-/-- the property on one call: the outcome is exactly the reference walk's -/
-def checkOne (w : WalkRes2) (wt : List (Nat × Val)) (obs : Obs) (touched : Option (List Nat)) : Bool :=
-  (match w, obs with
-   | .ok v, .ok v' => valMatch v v'
-   | .fail k e, .pae k' c g ke ie ae => k == k' && e.cls == c && g && ke && ie && ae
+/-- the property on one call: the outcome is exactly the reference walk's, the
+    error carries the exception the access raised, the objects touched are exactly
+    the walk's, in its order -/
+def checkOne (env : Env) (rc : RefCall) (obs : Obs2) (log : List Nat) : Bool :=
+  (match rc.w, obs with
+   | .ok v, .ok v' toks => valMatch v v' toks
+   | .fail k e, .pae k' c g ke ie ae excOk pathOk a =>
+     k == k' && e.cls == c && g && ke && ie && ae && excOk && pathOk &&
+     (if env.excTable.isSub e.cls "KeyError" then
+        (match a, rc.key with
+         | some x, some y => x == y
+         | _, _ => true)
+      else true)
    | .escapes _ e, .other c => e.cls == c
    | .noHandler _, .other c => c == "UnregisteredTarget"
    | _, _ => false) &&
-  (match touched with
-   | some t => isSubseq t (touchedAddrs wt)
-   | none => true)
+  log == rc.log
 
-def checkAll : List (WalkRes2 × List (Nat × Val)) → List (Obs × Option (List Nat)) → Bool
+def checkAll (env : Env) : List RefCall → List (Obs2 × List Nat) → Bool
   | [], [] => true
-  | (w, wt) :: ws, (o, t) :: os => checkOne w wt o t && checkAll ws os
+  | rc :: ws, (o, t) :: os => checkOne env rc o t && checkAll env ws os
   | _, _ => false
 
 /-- **the property on a history** of `register` / `glom` calls of one Glommer that
-    starts with the table `t` -/
+    starts with the table `t`; a history without a call checks nothing and is rejected -/
 def checkC01h (env : Env) (h : Heap) (t : Table) (evs : List Event)
-    (obs : List (Obs × Option (List Nat))) : Bool :=
-  checkAll (refHistory env h t evs) obs
+    (obs : List (Obs2 × List Nat)) : Bool :=
+  checkAll env (refHistory env h t evs) obs
 
 def wfEvents : List Event → Bool
   | [] => true
